@@ -515,3 +515,107 @@ Proof.
     + intros _. rewrite <- Lb. apply B. discriminate.
   - intros Hok. destruct (Hf Hok) as [Hf1 Hf2]. split; [lia|exact Hf2].
 Qed.
+
+(** ** PopStateMachine::setState *)
+Lemma sm_arith : forall s a b s' ok,
+    wf s -> is_act (cores s) a -> sm_setState pstate ccmd cexec cunexec s a b = Ok (s', ok) ->
+    frame s s' /\
+    (ok = true -> Z.of_N (napp _ _ s') = Z.of_N (napp _ _ s) + (hgt (cores s) b - hgt (cores s) a) /\ is_act (cores s') b) /\
+    (ok = false -> napp _ _ s' = napp _ _ s /\ is_act (cores s') a).
+Proof.
+  intros s a b s' ok W Ha H. unfold sm_setState in H.
+  destruct (N.eqb a b) eqn:Eab.
+  { inversion H; subst. apply N.eqb_eq in Eab. subst. split; [apply frame_refl; exact W|]. split; [|discriminate].
+    intros _. split; [lia|exact Ha]. }
+  destruct (lca ccmd (blocks pstate ccmd s) _ a b) as [fork|]; [|discriminate].
+  dbind H. destruct (unapply_arith _ _ _ _ W E) as (F1 & A1 & I1).
+  dbind H. destruct a1 as [s2 ok2].
+  pose proof (fr_wf _ _ F1) as W1.
+  destruct (apply_arith _ _ _ _ _ W1 E0) as (F2 & T2 & N2).
+  pose proof (fr_static _ _ F1) as S1.
+  destruct ok2.
+  - inversion H; subst; clear H. split; [eapply frame_trans; eassumption|]. split; [|discriminate]. intros _.
+    destruct (T2 eq_refl) as (A2 & B2 & C2). rewrite !(hgt_static _ _ _ S1) in A2. split; [lia|].
+    destruct (N.eq_dec fork b) as [->|Hn]; [apply C2; apply I1; exact Ha|apply B2; exact Hn].
+  - destruct (N2 eq_refl) as [A2 B2].
+    dbind H. destruct a1 as [s3 ok3]. pose proof (fr_wf _ _ F2) as W2.
+    destruct (apply_arith _ _ _ _ _ W2 E1) as (F3 & T3 & _).
+    destruct ok3; inversion H; subst; clear H.
+    split; [eapply frame_trans; [eassumption|eapply frame_trans; eassumption]|]. split; [discriminate|]. intros _.
+    destruct (T3 eq_refl) as (A3 & B3 & C3).
+    pose proof (fr_static _ _ F2) as S2.
+    rewrite !(hgt_static _ _ _ S2), !(hgt_static _ _ _ S1) in A3. split; [apply N2Z.inj; lia|].
+    destruct (N.eq_dec fork a) as [->|Hn]; [apply C3; apply B2; apply I1; exact Ha|apply B3; exact Hn].
+Qed.
+
+(** ** the quiescent invariant: between top-level calls the tree is well formed, the tip is applied and the
+    applied counter equals the length of root..tip *)
+Definition quiet (s : cst) : Prop :=
+  wf s /\ is_act (cores s) (tip _ _ s) /\
+  Z.of_N (napp _ _ s) = hgt (cores s) (tip _ _ s) - hgt (cores s) (root _ _ s) + 1.
+
+Lemma root_h_hgt : forall s, root_h _ _ s = hgt (cores s) (root _ _ s).
+Proof.
+  intros s. unfold root_h, hgt, cores. rewrite cfind_core.
+  destruct (find ccmd (blocks pstate ccmd s) (root pstate ccmd s)); reflexivity.
+Qed.
+
+Lemma quiet_setState : forall s to s' ok,
+    quiet s -> c_setState s to = Ok (s', ok) ->
+    quiet s' /\ same_static (cores s) (cores s') /\ root _ _ s' = root _ _ s /\
+    (ok = true -> tip _ _ s' = to) /\ (ok = false -> tip _ _ s' = tip _ _ s /\ napp _ _ s' = napp _ _ s).
+Proof.
+  intros s to s' ok (W & Ta & Hn) H. unfold c_setState, setState in H.
+  destruct (find ccmd (blocks pstate ccmd s) (tip pstate ccmd s)) as [bt|] eqn:Ft; [|discriminate].
+  destruct (find ccmd (blocks pstate ccmd s) to) as [b0|] eqn:F0; [|discriminate].
+  destruct (negb _); [discriminate|].
+  match type of H with bind ?e _ = _ => destruct e as [[s1 ok1]|] eqn:E end; cbn [bind] in H; [|discriminate].
+  assert (X : frame s s1 /\
+              (ok1 = true -> Z.of_N (napp _ _ s1) = Z.of_N (napp _ _ s) + (hgt (cores s) to - hgt (cores s) (tip _ _ s)) /\ is_act (cores s1) to) /\
+              (ok1 = false -> napp _ _ s1 = napp _ _ s /\ is_act (cores s1) (tip _ _ s))).
+  { destruct (N.eqb (tip pstate ccmd s) to) eqn:Et.
+    - inversion E; subst. apply N.eqb_eq in Et. split; [apply frame_refl; exact W|]. split; [|discriminate].
+      intros _. rewrite <- Et. split; [lia|exact Ta].
+    - eapply sm_arith; eassumption. }
+  destruct X as (F & Xt & Xf). destruct F as [W1 S1 R1 T1].
+  destruct (find ccmd (blocks pstate ccmd s1) to) as [bto|] eqn:Fto; [|discriminate].
+  destruct ok1.
+  - destruct (valid_upto ccmd bto L_FULL); inversion H; subst; clear H.
+    destruct (Xt eq_refl) as [A B].
+    assert (Hc : chain_count pstate ccmd s1 to = napp _ _ s1).
+    { unfold chain_count. rewrite Fto, root_h_hgt, R1. rewrite (hgt_static _ _ _ S1).
+      assert (b_h ccmd bto = hgt (cores s) to).
+      { rewrite <- (hgt_static _ _ _ S1). unfold hgt. rewrite (find_cfind _ _ _ Fto). reflexivity. }
+      rewrite H. apply N2Z.inj. rewrite Z2N.id by lia. lia. }
+    split; [|split; [exact S1|split; [exact R1|split; [reflexivity|discriminate]]]].
+    unfold quiet, wf, cores. cbn [blocks root tip napp]. fold (cores s1). rewrite Hc.
+    split; [exact W1|]. split; [exact B|]. rewrite R1, !(hgt_static _ _ _ S1). lia.
+  - destruct (negb (is_failed ccmd bto)); [discriminate|].
+    destruct (negb _); inversion H; subst; clear H.
+    destruct (Xf eq_refl) as [A B].
+    split; [|split; [exact S1|split; [exact R1|split; [discriminate|intros _; split; assumption]]]].
+    split; [exact W1|]. rewrite T1, R1, A, !(hgt_static _ _ _ S1). split; [exact B|exact Hn].
+Qed.
+
+Lemma cfind_app_some : forall l x j e, cfind l j = Some e -> cfind (l ++ [x]) j = Some e.
+Proof. induction l as [|y r IH]; intros x j e H; cbn in *; [discriminate|]. destruct (N.eqb (e_id y) j); [exact H|apply IH; exact H]. Qed.
+
+Lemma quiet_connect : forall s i par dup gs s',
+    quiet s -> c_connect s i par dup gs = Ok s' -> quiet s' /\ tip _ _ s' = tip _ _ s /\ root _ _ s' = root _ _ s.
+Proof.
+  intros s i par dup gs s' (W & Ta & Hn) H. unfold c_connect, connect in H.
+  destruct (find ccmd (blocks pstate ccmd s) par) as [pb|] eqn:Fp; [|discriminate].
+  destruct (find ccmd (blocks pstate ccmd s) i) eqn:Fi; [discriminate|].
+  inversion H; subst; clear H. split; [|split; reflexivity].
+  assert (C : cores (with_blocks pstate ccmd s (blocks pstate ccmd s ++ [mkBlk ccmd i par (b_h ccmd pb + 1) L_CONNECTED false dup (is_failed ccmd pb) false gs]))
+              = cores s ++ [(i, par, b_h ccmd pb + 1, false)]).
+  { unfold cores. cbn [blocks with_blocks]. rewrite map_app. reflexivity. }
+  unfold quiet, wf. rewrite C. cbn [root tip napp with_blocks].
+  split; [|split].
+  - eapply wfc_snoc; [exact W| |apply find_cfind; exact Fp|reflexivity].
+    unfold cores. rewrite cfind_core, Fi. reflexivity.
+  - destruct Ta as (e & He & Hact). exists e. split; [apply cfind_app_some; exact He|exact Hact].
+  - assert (Hh : forall j e, cfind (cores s) j = Some e -> hgt (cores s ++ [(i, par, b_h ccmd pb + 1, false)]) j = hgt (cores s) j).
+    { intros j e He. unfold hgt. rewrite (cfind_app_some _ _ _ _ He), He. reflexivity. }
+    destruct Ta as (e & He & _). destruct W as (_ & (hr & HR) & _). rewrite (Hh _ _ He), (Hh _ _ HR). exact Hn.
+Qed.
